@@ -24,8 +24,9 @@ from sigma.exceptions import SigmaError
 from sigma.processing.pipeline import ProcessingPipeline
 
 _ADDR = re.compile(r"0x[0-9a-fA-F]{6,}")
-_COND = re.compile(r"_cond_[a-z]{10}")
-_FILT = re.compile(r"_filt_[a-z]{10}")
+# the random part of the internal names, however long it is
+_COND = re.compile(r"_cond_[a-z]{4,}")
+_FILT = re.compile(r"_filt_(?!undefined_)[a-z]{4,}")
 _TMP = re.compile(r"/[^\s'\"]*sigsim-[A-Za-z0-9_]+")
 # auto-generated processing item identifiers are a hash over the transformation's attribute repr,
 # which contains object addresses and random names: whether *those* are stable is C20's question.
